@@ -355,7 +355,9 @@ def run(ctx):
             ctx.count_case(("sim", sd, adv, line), nontrivial=P > 1)
             nsim += 1
             if not head.startswith("RUN rc=0 mem=0"):
-                ctx.violation(key, "sc_ranges_adaptive on the simulated MPI, case '%s' seed %d adversary %d: %s" % (line[:120], sd, adv, head[:400]), rep)
+                nviol += 1
+                if nviol <= 8:
+                    ctx.violation(key, "sc_ranges_adaptive on the simulated MPI, case '%s' seed %d adversary %d: %s" % (line[:120], sd, adv, head[:400]), rep)
                 continue
             try:
                 outs = [l.split(": ", 1)[1] for l in per]
@@ -363,6 +365,8 @@ def run(ctx):
             except (IndexError, ValueError) as e:
                 outs, dev = None, "unparsable output (%s)" % e
             if dev:
+                nviol += 1
+            if dev and nviol <= 8:
                 ctx.violation(key, "sc_ranges_adaptive on the simulated MPI, case '%s' seed %d adversary %d: %s" % (line[:120], sd, adv, dev), rep)
             if ml is not None and outs is not None:
                 if ml[mpos:mpos + P] != outs:
@@ -410,6 +414,8 @@ def run(ctx):
                 ctx.count_case(("mpi", line), nontrivial=True)
                 nmpi += 1
                 if dev:
+                    nviol += 1
+                if dev and nviol <= 8:
                     ctx.violation("adaptive:P%d:%s" % (P, line[:40].replace(" ", "_")), "sc_ranges_adaptive under OpenMPI, case '%s': %s" % (line[:160], dev), dict(case=line, P=P))
     except vlib.BuildError as e:
         ctx.tie_broken("c15 OpenMPI build", str(e)[-1000:])
